@@ -3959,16 +3959,16 @@ def sdp(c, Gl = None, hl = None, Gs = None, hs = None, A = None, b = None,
                 base.gemv(Gs[k], x, rz, beta = 1.0, offsety = ind)
                 ind += ms[k]**2
             dims = {'l': ml, 's': ms, 'q': []}
-            resz = misc.nrm2(rz, dims) / resz0
+            resz = misc.snrm2(rz, dims) / resz0
 
             s = matrix(0.0, (N,1))
             blas.copy(sl, s)
             ind = ml
             for k in range(len(ms)):
                 blas.copy(ss[k], s, offsety = ind)
-                ind += ms[k]
+                ind += ms[k]**2
             pslack = -misc.max_step(s, dims)
-            sslack = None
+            dslack = None
 
             pres, dres = None, None
             dinfres, pinfres = resz, None
@@ -4004,7 +4004,7 @@ def sdp(c, Gl = None, hl = None, Gs = None, hs = None, A = None, b = None,
             ind = ml
             for k in range(len(ms)):
                 blas.copy(zs[k], z, offsety = ind)
-                ind += ms[k]
+                ind += ms[k]**2
             dslack = -misc.max_step(z, dims)
             pslack = None
 
@@ -4070,7 +4070,7 @@ def sdp(c, Gl = None, hl = None, Gs = None, hs = None, A = None, b = None,
             for k in range(len(ms)):
                 blas.copy(ss[k], s, offsety = ind)
                 blas.copy(zs[k], z, offsety = ind)
-                ind += ms[k]
+                ind += ms[k]**2
             pslack = -misc.max_step(s, dims)
             dslack = -misc.max_step(z, dims)
 
